@@ -45,3 +45,12 @@ func WithTimeout(parent Context, d time.Duration) (Context, CancelFunc) {
 func WithValue(parent Context, key, val any) Context { return context.WithValue(parent, key, val) }
 
 func Cause(c Context) error { return context.Cause(c) }
+
+// AfterFunc mirrors context.AfterFunc.
+func AfterFunc(ctx Context, f func()) (stop func() bool) { return core.CtxAfterFunc(ctx, f) }
+
+func WithCancelCause(parent Context) (Context, context.CancelCauseFunc) {
+	return context.WithCancelCause(parent)
+}
+
+func WithoutCancel(parent Context) Context { return context.WithoutCancel(parent) }
